@@ -39,6 +39,60 @@ pub struct Case {
     pub cols: Cols,
     pub first: (SeqSpec, SBk),
     pub ops: Vec<Op>,
+    /// run the history on an alphabet declared by the caller (`Dssp` below) instead of `abc`: five symbols, the
+    /// symbol type's `Default` is its FIRST variant while the alphabet names its last one as `default_symbol()`.
+    /// Which of the two fills the cells past the end is not what the property fixes for such an alphabet; that
+    /// every striping backend fills them alike is.
+    #[serde(default)]
+    pub user_abc: bool,
+}
+
+/// Secondary-structure states, declared through the public traits as a user of the library would.
+#[derive(Clone, Copy, Debug, Default, PartialEq, Eq)]
+#[repr(u8)]
+pub enum Sec {
+    #[default]
+    Coil = 0,
+    Helix = 1,
+    Strand = 2,
+    Turn = 3,
+    Unknown = 4,
+}
+
+impl Symbol for Sec {
+    fn as_index(&self) -> usize {
+        *self as usize
+    }
+    fn as_ascii(&self) -> u8 {
+        b"CHETX"[*self as usize]
+    }
+    fn from_ascii(c: u8) -> Result<Self, lightmotif::err::InvalidSymbol> {
+        match c {
+            b'C' => Ok(Sec::Coil),
+            b'H' => Ok(Sec::Helix),
+            b'E' => Ok(Sec::Strand),
+            b'T' => Ok(Sec::Turn),
+            b'X' => Ok(Sec::Unknown),
+            _ => Err(lightmotif::err::InvalidSymbol(c as char)),
+        }
+    }
+}
+
+#[derive(Clone, Copy, Debug, Default, PartialEq, Eq)]
+pub struct Dssp;
+
+impl Alphabet for Dssp {
+    type Symbol = Sec;
+    type K = lightmotif::num::U5;
+    fn default_symbol() -> Sec {
+        Sec::Unknown
+    }
+    fn symbols() -> &'static [Sec] {
+        &[Sec::Coil, Sec::Helix, Sec::Strand, Sec::Turn, Sec::Unknown]
+    }
+    fn as_str() -> &'static str {
+        "CHETX"
+    }
 }
 
 pub struct History;
@@ -91,9 +145,13 @@ fn case_strategy(tier: Tier) -> BoxedStrategy<Case> {
                 2 => (0usize..=40).prop_map(Op::Configure),
                 1 => Just(Op::Clone),
             ];
-            (Just(abc), Just(cols), (seq(), sbk_strategy(wide)), proptest::collection::vec(op, 0..12))
+            (Just(abc), Just(cols), (seq(), sbk_strategy(wide)), proptest::collection::vec(op, 0..12), prop_oneof![7 => Just(false), 1 => Just(true)])
         })
-        .prop_map(|(abc, cols, first, ops)| Case { abc, cols, first, ops })
+        .prop_map(|(abc, cols, first, ops, user)| {
+            // the caller-declared alphabet has five symbols, like DNA
+            let user_abc = user && abc == Abc::Dna;
+            Case { abc, cols, first, ops, user_abc }
+        })
         .boxed()
 }
 
@@ -164,6 +222,10 @@ fn verify<A: Alphabet, C: PositiveLength>(step: usize, what: &str, s: &StripedSe
     let r = (l + c - 1) / c;
     let k = A::symbols().len();
     let wild = (k - 1) as u8;
+    // an alphabet whose `default_symbol()` is not its symbol type's `Default`: the filler is whatever the generic
+    // pipeline puts there (all backends must agree), and the last column of a look-ahead row is left open
+    let named = A::default_symbol().as_index() != <A::Symbol as Default>::default().as_index();
+    let reference: Option<StripedSequence<A, C>> = if named { Some(Stripe::<A, C>::stripe(&Pipeline::<A, _>::generic(), &syms::<A>(seq))) } else { None };
     let fail = |kind: &str, msg: String| Some(Failure::new(format!("stripe:{}", kind), format!("after op #{} ({}): {}", step, what, msg)));
     if s.len() != l {
         return fail("len", format!("len() = {} expected {}", s.len(), l));
@@ -181,15 +243,32 @@ fn verify<A: Alphabet, C: PositiveLength>(step: usize, what: &str, s: &StripedSe
     for row in 0..r {
         for col in 0..c {
             let i = col * r + row;
-            let want = if i < l { seq[i] } else { wild };
+            let want = if i < l {
+                seq[i]
+            } else if let Some(rf) = &reference {
+                rf.matrix()[row][col].as_index() as u8
+            } else {
+                wild
+            };
             info.comparisons += 1;
             if cell(row, col) != want {
+                if named && i >= l {
+                    return fail(
+                        "cell:backends-fill-differently",
+                        format!("cell (row {}, col {}) past the end holds symbol {} but the generic pipeline striping the same sequence puts {} there (L={}, R={})", row, col, cell(row, col), want, l, r),
+                    );
+                }
                 return fail("cell", format!("cell (row {}, col {}) holds symbol {} expected {} (L={}, R={})", row, col, cell(row, col), want, l, r));
             }
         }
     }
     for kx in 0..wrap {
         for col in 0..c {
+            // (for such an alphabet also the look-ahead rows beyond R, copies of rows that are themselves being
+            // built from default-initialised cells)
+            if named && (col + 1 == c || kx >= r) {
+                continue;
+            }
             let want = if col + 1 < c { cell(kx, col + 1) } else { wild };
             info.comparisons += 1;
             if cell(r + kx, col) != want {
@@ -296,6 +375,7 @@ fn run<A: Alphabet, C: PositiveLength, S: Striper<A, C>>(case: &Case) -> Verdict
         Cols::U32 => "C=32",
     });
     info.class_if(case.abc == Abc::Protein, "protein");
+    info.class_if(case.user_abc, "caller-declared-alphabet");
     let uses = |f: &dyn Fn(&SBk) -> bool| f(&case.first.1) || case.ops.iter().any(|o| matches!(o, Op::StripeInto(_, b) | Op::StripeFresh(_, b) if f(b)));
     info.class_if(uses(&|b| matches!(b, SBk::Avx2 | SBk::Dispatch(Arm::Avx2) | SBk::ToStriped(Arm::Avx2))), "avx2-striping");
     info.class_if(uses(&|b| matches!(b, SBk::Dispatch(Arm::Generic | Arm::Sse2) | SBk::ToStriped(Arm::Generic | Arm::Sse2))), "dispatch-fallback-striping");
@@ -308,7 +388,7 @@ impl Sub for History {
         "history"
     }
     fn rule(&self) -> &'static str {
-        "alphabet x column count {1,2,4,16,32} x history of up to 12 ops on one buffer (stripe_into / stripe with generic, AVX2, dispatcher forced to each arm, EncodedSequence::to_striped; configure_wrap(m) growing / shrinking / > R; configure(pssm); clone); after EVERY op the whole matrix, look-ahead rows, len, wrap, Index and symbol counts are compared with a model (linear sequence, running max of requested wrap); sweep = every length 0..=1100 (quick) / 0..=2200 (thorough) striped by AVX2 into a reused buffer; non-trivial = R >= 2 and >= 1 wrap op after a stripe"
+        "alphabet x column count {1,2,4,16,32} x history of up to 12 ops on one buffer (stripe_into / stripe with generic, AVX2, dispatcher forced to each arm, EncodedSequence::to_striped; one case in eight on a five-symbol alphabet declared by the caller whose default_symbol() is not its symbol type's Default - there the cells past the end must be what the generic pipeline puts there, whichever backend striped; configure_wrap(m) growing / shrinking / > R; configure(pssm); clone); after EVERY op the whole matrix, look-ahead rows, len, wrap, Index and symbol counts are compared with a model (linear sequence, running max of requested wrap); sweep = every length 0..=1100 (quick) / 0..=2200 (thorough) striped by AVX2 into a reused buffer; non-trivial = R >= 2 and >= 1 wrap op after a stripe"
     }
     fn cases(&self, tier: Tier) -> u64 {
         tier.pick(60_000, 2_000_000)
@@ -330,6 +410,7 @@ impl Sub for History {
                     Op::ConfigureWrap(l % 45),
                     Op::StripeInto(SeqSpec::Seeded { len: l, seed: l as u64 + 99, wild_pct: 0 }, SBk::Dispatch(Arm::Avx2)),
                 ],
+                user_abc: l % 5 == 3,
             });
         }
         // long runs of one symbol: at least 256 / 512 consecutive ROWS of a column hold the same symbol (8-bit
@@ -341,6 +422,7 @@ impl Sub for History {
                     cols: Cols::U32,
                     first: (SeqSpec::Homopolymer { len, sym }, SBk::Avx2),
                     ops: vec![Op::ConfigureWrap(7)],
+                    user_abc: false,
                 });
                 // a 600-symbol run inside a mixed sequence: Tandem with a long unit
                 let mut unit: Vec<u8> = (0..len.min(9000)).map(|i| ((i * 7 + i / 5) % 4) as u8).collect();
@@ -349,7 +431,7 @@ impl Sub for History {
                 for x in unit[at..end].iter_mut() {
                     *x = sym % 4;
                 }
-                out.push(Case { abc, cols: Cols::U32, first: (SeqSpec::Tandem { unit, len: len + 999 }, SBk::Generic), ops: vec![Op::Configure(12)] });
+                out.push(Case { abc, cols: Cols::U32, first: (SeqSpec::Tandem { unit, len: len + 999 }, SBk::Generic), ops: vec![Op::Configure(12)], user_abc: false });
             }
         }
         // more than 65536 striped rows (a 16-bit row counter), every striping backend, then a shorter re-use
@@ -360,11 +442,25 @@ impl Sub for History {
                 cols: Cols::U32,
                 first: (SeqSpec::Seeded { len: l, seed: 65536, wild_pct: 1 }, bk),
                 ops: vec![Op::ConfigureWrap(9), Op::StripeInto(SeqSpec::Seeded { len: 32 * 65535 + 1, seed: 7, wild_pct: 1 }, SBk::Avx2)],
+                user_abc: false,
             });
         }
         out
     }
     fn check(&self, case: &Case, _cx: &Cx) -> Verdict {
+        if case.user_abc {
+            return match case.cols {
+                Cols::U1 => run::<Dssp, U1, Narrow>(case),
+                Cols::U2 => run::<Dssp, U2, Narrow>(case),
+                Cols::U4 => run::<Dssp, U4, Narrow>(case),
+                Cols::U16 => run::<Dssp, U16, Narrow>(case),
+                Cols::U32 => run::<Dssp, U32, Wide>(case),
+                Cols::U7 => run::<Dssp, lightmotif::num::U7, Narrow>(case),
+                Cols::U8 => run::<Dssp, lightmotif::num::U8, Narrow>(case),
+                Cols::U48 => run::<Dssp, lightmotif::num::U48, Narrow>(case),
+                Cols::U64 => run::<Dssp, lightmotif::num::U64, Narrow>(case),
+            };
+        }
         match (case.abc, case.cols) {
             (Abc::Dna, Cols::U1) => run::<Dna, U1, Narrow>(case),
             (Abc::Dna, Cols::U2) => run::<Dna, U2, Narrow>(case),
